@@ -121,6 +121,22 @@ def check(ctx, prop="C12"):
                 seen_small.add(key)
                 rr = run_real(impl, small, scratch)
                 ss = model_run("ref", small)
+                if rr == ss:
+                    # the history fails only after the histories before it in the stream (state that survives `newfs`: in the
+                    # implementation or in the harness); report it as it happened, with the stream that reproduces it
+                    small = hist
+                    ss = model_run("ref", hist)
+                    rr = run_real(impl, hist, scratch)
+                    if rr == ss:
+                        stats["context_dependent_failures"] += 1
+                        if reported == 0 and not found:
+                            reported += 1
+                            found = True
+                            ctx.violation("counterexample", "fs (%s): a history disagrees with the reference model only when it runs after the earlier histories of the stream" % impl,
+                                          {"proto": "fs-stream", "impl": impl, "seed": ctx.seed, "tier": ctx.tier, "ops": hist,
+                                           "how": "hcorr fs gen -seed %d -tier %s | hcorr fs run -impl %s" % (ctx.seed, ctx.tier, impl)},
+                                          expected=ss, observed="differs in the stream run; equal when the history runs alone")
+                        continue
                 e = match_known(prop, impl, small, rr, ss)
                 if e is not None:
                     known_hits.setdefault(e["key"], e)
